@@ -2,10 +2,15 @@
   TwigModel.Builtins — the built-in filters, functions and tests (extension.go) that the
   render-level correspondence uses, on the model's value type.  Each is the transliteration of the
   Go function for the value shapes of `Val`; inputs outside the modelled fragment give `unsupported`.
-  (The C19 filter equations are proved about the richer model in TwigModel.Filters.)
+
+  The string and list filters (length, first, last, reverse, trim, slice, sort, split, capitalize,
+  title) are adapters to the filter model of TwigModel.Filters (`Twig.Flt`, full UTF-8; the C19
+  equations are proved about it): `Val.toFlt?` / `Val.ofFlt?` convert between the two value types,
+  TwigProofs/C19Pipe.lean proves that each adapter computes the `Flt` function on the converted value.
 -/
 import TwigModel.Value
 import TwigModel.Escape
+import TwigModel.Filters
 namespace Twig
 
 def isEmptyVal : Val → Bool
@@ -15,6 +20,10 @@ def isEmptyVal : Val → Bool
   | .int i => i == 0
   | .list xs => xs.isEmpty
   | .map kvs => kvs.isEmpty
+  | _ => false
+
+def Val.isList : Val → Bool
+  | .list _ => true
   | _ => false
 
 def asciiOnly (s : Bytes) : Bool := s.all (· < 128)
@@ -51,9 +60,148 @@ def mapM' {α β} (f : α → R β) : List α → R (List β)
     no-raw-characters, round trip and pass-through for every byte string -/
 def escapeHtml (s : Bytes) : Bytes := Escape.escReg s
 
-/-- number of UTF-8 encoded runes (`utf8.RuneCountInString`): every byte that is not a continuation
-    byte of a *valid* sequence counts; for ASCII this is the length. Non-ASCII → unsupported here. -/
-def runeCount (s : Bytes) : R Nat := if asciiOnly s then .ok s.length else unsup "non-ASCII string length"
+/-- number of UTF-8 encoded runes (`utf8.RuneCountInString`), for every byte string: an invalid byte
+    counts as one rune (`Flt.Utf8.runeCount`). -/
+def runeCount (s : Bytes) : R Nat := .ok (Flt.Utf8.runeCount s)
+
+/-! ## conversions between the pipeline's values and the filter model's (`Twig.Flt`)
+
+  `Flt.Val` has scalars, lists of scalars and maps of scalars.  The pipeline's scalars (`null`, `bool`,
+  `int`, `str`) and its lists of scalars (`[]interface{}` = `.list .any false`) convert; maps, nested
+  containers, macros and closures do not (`none`).  Back: everything except a float (`.dec`) and a map. -/
+
+def Val.toScalar? : Val → Option Flt.Scalar
+  | .null => some .null
+  | .bool x => some (.bool x)
+  | .int i => some (.int i)
+  | .str s => some (.str s)
+  | _ => none
+
+def scalarsToFlt : List Val → Option (List Flt.Scalar)
+  | [] => some []
+  | x :: r =>
+    match x.toScalar?, scalarsToFlt r with
+    | some a, some as => some (a :: as)
+    | _, _ => none
+
+def Val.toFlt? : Val → Option Flt.Val
+  | .list xs => (scalarsToFlt xs).map (Flt.Val.list .any false)
+  | v => v.toScalar?.map Flt.Val.sc
+
+def argsToFlt : List Val → Option (List Flt.Val)
+  | [] => some []
+  | x :: r =>
+    match x.toFlt?, argsToFlt r with
+    | some a, some as => some (a :: as)
+    | _, _ => none
+
+def scalarOfFlt? : Flt.Scalar → Option Val
+  | .null => some .null
+  | .bool x => some (.bool x)
+  | .int i => some (.int i)
+  | .str s => some (.str s)
+  | .dec _ _ _ => none
+
+def scalarsOfFlt? : List Flt.Scalar → Option (List Val)
+  | [] => some []
+  | x :: r =>
+    match scalarOfFlt? x, scalarsOfFlt? r with
+    | some a, some as => some (a :: as)
+    | _, _ => none
+
+/-- forgets the element-type tag: every Go slice is a `.list` -/
+def Val.ofFlt? : Flt.Val → Option Val
+  | .sc x => scalarOfFlt? x
+  | .list _ _ xs => (scalarsOfFlt? xs).map Val.list
+  | .map _ _ => none
+
+/-- the outcome of a `Flt` filter as a pipeline result -/
+def resOfFlt : Flt.Res → R Val
+  | .ok w => match Val.ofFlt? w with
+    | some x => .ok x
+    | none => unsup "a float or map result"
+  | .err => rerr "filter error"
+  | .panic => unsup "the filter panics"
+  | .unsupported => unsup "outside the filter model"
+
+/-- run a `Flt` filter on a pipeline value -/
+def viaFlt (f : Flt.Val → List Flt.Val → Flt.Res) (v : Val) (args : List Val) : R Val :=
+  match v.toFlt?, argsToFlt args with
+  | some fv, some fa => resOfFlt (f fv fa)
+  | _, _ => unsup "value shape outside the filter model"
+
+/-- `toInt` of a filter argument (extension.go `toInt` as `Flt.toIntArg` has it: 64-bit ints, `Atoi`
+    strings, bools; everything else is an error) -/
+def sliceIntArg (a : Val) : R Int :=
+  match a.toFlt? with
+  | none => rerr "cannot convert to int"
+  | some fa =>
+    match Flt.toIntArg fa with
+    | .ok i => .ok i
+    | .error .unsupported => unsup "integer outside 64 bits"
+    | .error _ => rerr "cannot convert to int"
+
+/-- filterSlice: `Flt.Slice.goSlice64` on the elements of a list (any elements) or the runes of a
+    string (any bytes) -/
+def sliceFilter (v : Val) (args : List Val) : R Val :=
+  match v with
+  | .null => .ok .null
+  | _ =>
+  match args with
+  | [] => rerr "slice filter requires at least one argument (start index)"
+  | a0 :: rest => do
+    let start ← sliceIntArg a0
+    let len : Option Int ← match rest with
+      | [] => pure none
+      | .null :: _ => pure none
+      | a1 :: _ => do pure (some (← sliceIntArg a1))
+    match v with
+    | .str s => .ok (.str (Flt.Utf8.encodeRunes (Flt.Slice.goSlice64 (Flt.Utf8.decodeRunes s) start len)))
+    | .list xs => .ok (.list (Flt.Slice.goSlice64 xs start len))
+    | _ => rerr "cannot slice"
+
+/-- the order of the result does not depend on the sorting algorithm: elements with the same key
+    (`toString`) are the same value.  (`sort.Slice` on a `[]interface{}` is not stable; with `1` and
+    `'1'` in one list the model does not say which comes first.) -/
+def sortDetermined (ss : List Flt.Scalar) : Bool :=
+  ss.all fun x => ss.all fun y => x.toStr != y.toStr || x == y
+
+/-- filterSort on a `[]interface{}` of scalars: by `toString` (`Flt.sortV` on `.list .any false`) -/
+def sortFilter (v : Val) : R Val :=
+  match v with
+  | .null => .ok .null
+  | .list xs =>
+    match scalarsToFlt xs with
+    | none => unsup "sort of nested values"
+    | some ss =>
+      if sortDetermined ss then resOfFlt (Flt.sortV (.list .any false ss))
+      else unsup "sort: different values with the same key (sort.Slice is not stable)"
+  | _ => rerr "cannot sort"
+
+/-- filterSplit of a scalar (`toString` first): a one-byte separator is `strings.Split`, a longer
+    ASCII separator splits at EACH of its characters (a regexp class — a `-` inside would make a range:
+    unsupported), the empty separator gives the UTF-8 sequences (`strings.Split(s, "")`); no positive
+    limit (`Flt.splitV`, `Flt.explodeStr`) -/
+def splitFilter (v : Val) (args : List Val) : R Val :=
+  match v.toFlt?, argsToFlt args with
+  | some (.sc x), some fa =>
+    match Flt.sepArg fa with
+    | [] =>
+      if Flt.splitLimitOk fa then .ok (.list ((Flt.explodeStr x.toStr).map Val.str))
+      else unsup "split with a positive limit"
+    | [_] => resOfFlt (Flt.splitV (.sc x) fa)
+    | set =>
+      if set.contains 45 then unsup "split: '-' in a multi-character separator is a regexp range"
+      else resOfFlt (Flt.splitV (.sc x) fa)
+  | _, _ => unsup "split of a container"
+
+/-- filterCapitalize / filterTitle (the same body) of a scalar, ASCII text only (as upper / lower) -/
+def capitalizeFilter (v : Val) : R Val :=
+  match v.toFlt? with
+  | some (.sc x) =>
+    if asciiOnly x.toStr then .ok (.str (Flt.capitalizeStr Flt.CaseMap.asciiOnly x.toStr))
+    else unsup "case mapping of non-ASCII text"
+  | _ => unsup "capitalize of a container"
 
 /-- built-in filters: `none` = no such built-in. -/
 def builtinFilter (name : Bytes) (v : Val) (args : List Val) : Option (R Val) :=
@@ -66,7 +214,7 @@ def builtinFilter (name : Bytes) (v : Val) (args : List Val) : Option (R Val) :=
   else if name == b "raw" then some (.ok v)
   else if name == b "trim" then some do
     if !args.isEmpty then unsup "trim with a character mask" else
-    let s ← toStr v; if asciiOnly s then .ok (.str (trimSpace s)) else unsup "trim of non-ASCII text"
+    let s ← toStr v; .ok (.str (Flt.trimStr s))
   else if name == b "length" || name == b "count" then some do
     match v with
     | .null => .ok (.int 0)
@@ -89,22 +237,26 @@ def builtinFilter (name : Bytes) (v : Val) (args : List Val) : Option (R Val) :=
   else if name == b "first" then some do
     match v with
     | .null => .ok .null
-    | .str s => if asciiOnly s then .ok (.str (s.take 1)) else unsup "first of non-ASCII text"
+    | .str s => .ok (.str (Flt.firstStr s))
     | .list xs => .ok (xs.head?.getD .null)
     | .map kvs => .ok ((kvs.head?.map (·.2)).getD .null)      -- kvs is key-sorted: smallest key
     | _ => rerr "cannot get first element"
   else if name == b "last" then some do
     match v with
     | .null => .ok .null
-    | .str s => if asciiOnly s then .ok (.str (s.drop (s.length - 1))) else unsup "last of non-ASCII text"
+    | .str s => .ok (.str (Flt.lastStr s))
     | .list xs => .ok (xs.getLast?.getD .null)
     | _ => rerr "cannot get last element"
   else if name == b "reverse" then some do
     match v with
     | .null => .ok .null
-    | .str s => if asciiOnly s then .ok (.str s.reverse) else unsup "reverse of non-ASCII text"
+    | .str s => .ok (.str (Flt.reverseStr s))
     | .list xs => .ok (.list xs.reverse)
     | _ => rerr "cannot reverse"
+  else if name == b "slice" then some (sliceFilter v args)
+  else if name == b "sort" then some (sortFilter v)
+  else if name == b "split" then some (splitFilter v args)
+  else if name == b "capitalize" || name == b "title" then some (capitalizeFilter v)
   else if name == b "keys" then some do
     match v with
     | .null => .ok .null
@@ -113,6 +265,13 @@ def builtinFilter (name : Bytes) (v : Val) (args : List Val) : Option (R Val) :=
   else if name == b "merge" then some do
     match v with
     | .list xs =>
+      -- a `[]interface{}` base ignores non-list arguments; a `[]string` base (the result of `keys`,
+      -- `split`, and of `slice` / `reverse` on those — the model's `.list` does not record the Go type)
+      -- falls back to functionMerge when a `[]interface{}` argument comes along, and that APPENDS
+      -- them: with both kinds of argument the answer depends on the static type of the base
+      if args.any Val.isList && args.any (fun a => !a.isList) then
+        unsup "merge with list and non-list arguments: the result depends on the Go slice type of the base"
+      else
       .ok (.list (args.foldl (fun acc a => match a with | .list ys => acc ++ ys | _ => acc) xs))
     | .map kvs =>
       .ok (.map (args.foldl (fun acc a => match a with
